@@ -23,7 +23,8 @@ use crate::anchor_store::{self, AnchorKind};
 use crate::base64::decode_base64_yaml;
 use crate::de_error::{MissingFieldLocationGuard, TransformReason};
 use crate::parse_scalars::{
-    leading_zero_decimal, maybe_not_string, parse_int_signed, parse_int_unsigned,
+    is_rust_only_float_word, leading_zero_decimal, maybe_not_string, parse_int_signed,
+    parse_int_unsigned,
     parse_yaml11_bool, parse_yaml12_float, scalar_is_nullish, scalar_is_nullish_for_option,
 };
 use ahash::{HashSetExt, RandomState};
@@ -1265,9 +1266,11 @@ impl<'de, 'e> de::Deserializer<'de> for YamlDeserializer<'de, 'e> {
                     }
                 }
 
-                // Try float per YAML 1.2 forms.
-                if let Ok(v) =
-                    parse_yaml12_float::<f64>(&s, location, tag, self.cfg.angle_conversions)
+                // Try float per YAML 1.2 forms. The words `inf` / `nan` are only numbers for
+                // the angle-expression evaluator (when switched on), otherwise text.
+                if (self.cfg.angle_conversions || !is_rust_only_float_word(&s))
+                    && let Ok(v) =
+                        parse_yaml12_float::<f64>(&s, location, tag, self.cfg.angle_conversions)
                 {
                     // serde_json::Value (and possibly other typeless consumers) cannot represent
                     // non-finite floats. In `deserialize_any`, prefer returning a canonical string
